@@ -130,6 +130,24 @@ def c01(tier, rep):
             rep.violation({"kind": "hang"}, {"engine": "probe", "what": "parse + compile did not finish within 20 s on a short input", "input_class": name, "source": s[:300]})
         finally:
             signal.alarm(0)
+    # a document drawing tens of thousands of ids: nothing but the documented outcomes, ids dense from 0 (C11 compares smaller ones with the spec)
+    big = "Feature: big\n" + "".join(f"  Scenario: s{i}\n    Given x{i}\n" for i in range(9000))
+    rep.case(("large-probe", "36000 ids"))
+    try:
+        from gherkin.pickles.compiler import Compiler
+        from gherkin.stream.id_generator import IdGenerator
+        from gherkin.ast_builder import AstBuilder
+        idg = IdGenerator()
+        doc = Parser(AstBuilder(idg)).parse(big)
+        doc["uri"] = "u"
+        pk = Compiler(idg).compile(doc)
+        ids = sorted(int(p["id"]) for p in pk) + sorted(int(s["id"]) for p in pk for s in p["steps"])
+        if len(pk) != 9000 or idg._id_counter != 36000 or sorted(ids) != list(range(18000, 36000)):
+            rep.violation({"kind": "large-document"}, {"engine": "probe", "what": "ids of a 9000-scenario document are not dense", "pickles": len(pk), "counter": idg._id_counter})
+    except ParserError as x:
+        rep.violation({"kind": "large-document"}, {"engine": "probe", "what": "a well-formed 18001-line document is rejected: " + str(x)[:200]})
+    except Exception as x:  # noqa: BLE001
+        rep.violation({"kind": "large-document-exception"}, {"engine": "probe", "what": f"a 9000-scenario document raised {type(x).__name__}: {str(x)[:200]}"})
     # linear work: line-matching operations against the bound computed from the derived table
     dump, res = T.spec_table()
     K = max(len(s["trans"]) for s in dump["states"]) + 2 * 4
